@@ -63,6 +63,10 @@ class Boss(Role[Human], Symbol):
     person: Human
     head_of: Org = None
 
+    # Role is a dataclass with eq=True, which sets __hash__ to None for its subclasses: restore identity semantics
+    __hash__ = object.__hash__
+    __eq__ = object.__eq__
+
 
 @dataclass
 class Member(PropertyDescriptor, HasInverseProperty):
